@@ -312,7 +312,7 @@ pub trait KeyT: Hash + Eq + Clone + Send + Sync + std::fmt::Debug + serde::Seria
     fn k(&self) -> u32;
     fn id(&self) -> u32;
 }
-pub trait ValT: Clone + Send + Sync + PartialEq + std::fmt::Debug + serde::Serialize + serde::de::DeserializeOwned + 'static {
+pub trait ValT: Clone + Default + Send + Sync + PartialEq + std::fmt::Debug + serde::Serialize + serde::de::DeserializeOwned + 'static {
     fn new(v: u32) -> Self;
     fn v(&self) -> u32;
     fn set(&mut self, v: u32);
@@ -576,3 +576,20 @@ dbg_serde!(HK, |x: &HK| x.k, <HK as KeyT>::new);
 dbg_serde!(HV, |x: &HV| x.v, <HV as ValT>::new);
 dbg_serde!(ZK, |_x: &ZK| 0u32, |_| ZK);
 dbg_serde!(ZV, |_x: &ZV| 0u32, |_| ZV);
+
+// Entry::or_default: a value created inside the map (a new ledger object for heap values)
+impl Default for PV {
+    fn default() -> Self {
+        <PV as ValT>::new(0)
+    }
+}
+impl Default for HV {
+    fn default() -> Self {
+        <HV as ValT>::new(0)
+    }
+}
+impl Default for ZV {
+    fn default() -> Self {
+        <ZV as ValT>::new(0)
+    }
+}
